@@ -2,8 +2,8 @@
 // explicit-state BFS over malloc/free/realloc histories on the REAL object code (symbols renamed
 // to lin_malloc/lin_free/lin_realloc by objcopy), against a shadow map of live blocks.
 //
-// The executable is linked twice: with the allocator compiled with assertions (an abort is a
-// violation) and with -DNDEBUG (structural oracles only).
+// Built twice: against the allocator compiled with assertions (-DC10_ASSERT_BUILD=1: an abort is a
+// violation) and against the allocator compiled with -DNDEBUG (-DC10_ASSERT_BUILD=0: structural oracles only).
 #include "mc.hpp"
 #include <algorithm>
 #include <compat/mem/lin_malloc.h> // struct __freelist {sz, nx}
@@ -75,14 +75,45 @@ struct Heap : mc::Model
     vector<Blk> live; // sorted by offset
     static std::unordered_set<string> memo_ok; // states whose free-all oracle passed (per process)
 
-    explicit Heap(int k) : K(k)
+    // The allocator's state is global (three variables + the arena) and the engine may hold several models
+    // at once (e.g. a scratch one to print operation names): each model owns a saved copy and switches
+    // itself in before it touches the allocator.
+    static Heap *active;
+    struct Saved
     {
+        char *brk = nullptr;
+        struct __freelist *flp = nullptr;
+        int cnt = 0;
+        vector<char> mem;
+    } saved;
+    void activate()
+    {
+        if (active == this)
+            return;
+        if (active)
+            active->save();
         memset(A, 0xEE, std::min(g_dirty + 64, ARENA));
-        g_dirty = 0;
-        __brkval = nullptr;
-        __flp = nullptr;
+        g_dirty = saved.mem.size();
+        __brkval = saved.brk;
+        __flp = saved.flp;
         if (&__allocation_counter)
-            __allocation_counter = 0;
+            __allocation_counter = saved.cnt;
+        if (!saved.mem.empty())
+            memcpy(A, saved.mem.data(), saved.mem.size());
+        active = this;
+    }
+    void save()
+    {
+        saved.brk = __brkval;
+        saved.flp = __flp;
+        saved.cnt = &__allocation_counter ? __allocation_counter : 0;
+        saved.mem.assign(A, A + (__brkval ? __brkval - A : 0));
+    }
+    explicit Heap(int k) : K(k) {}
+    ~Heap()
+    {
+        if (active == this)
+            active = nullptr;
     }
 
     // ---- operations: malloc(s) | realloc(NULL,s) | free(#i) | realloc(#i,s)   (#i = i-th live block by address)
@@ -351,6 +382,7 @@ struct Heap : mc::Model
 
     bool apply(int o) override
     {
+        activate();
         Op p = decode(o);
         if ((p.kind == 0 || p.kind == 1) && (int)live.size() >= K)
             return false;
@@ -397,27 +429,36 @@ struct Heap : mc::Model
             mc::crash_context("C10.heap.%s", rt);
             char *q = (char *)lin_realloc(A + b.off, p.s);
             note_brk();
-            if (!q)
+            if (!q && p.s == 0)
+            {
+                // ISO C allows realloc(p, 0) to release the block and return NULL (this port keeps a minimal block)
+                live.erase(live.begin() + p.i);
+                outc(rt, "->released brk", brk_off());
+            }
+            else if (!q)
             {
                 mc::violation(sg(rt, "null"), "%s returned NULL although the arena has no upper limit; %s", opname(o).c_str(), dump().c_str());
                 return true;
             }
-            if (!check_placement(rt, q, p.s, p.i))
-                return true;
-            Blk nb{(uint32_t)(q - A), (uint32_t)p.s};
-            uint32_t common = std::min(b.req, nb.req);
-            int d = first_damage(nb, b.off, common);
-            if (d >= 0)
+            if (q)
             {
-                mc::violation(sg(rt, "prefix_lost"), "%s: block moved %u -> %u, byte %d of the common prefix (%u bytes) is %02x, was %02x", opname(o).c_str(),
-                              b.off, nb.off, d, common, (unsigned char)A[nb.off + d], pat(b.off, d));
-                return true;
+                if (!check_placement(rt, q, p.s, p.i))
+                    return true;
+                Blk nb{(uint32_t)(q - A), (uint32_t)p.s};
+                uint32_t common = std::min(b.req, nb.req);
+                int d = first_damage(nb, b.off, common);
+                if (d >= 0)
+                {
+                    mc::violation(sg(rt, "prefix_lost"), "%s: block moved %u -> %u, byte %d of the common prefix (%u bytes) is %02x, was %02x", opname(o).c_str(),
+                                  b.off, nb.off, d, common, (unsigned char)A[nb.off + d], pat(b.off, d));
+                    return true;
+                }
+                live.erase(live.begin() + p.i);
+                fill(nb);
+                insert_live(nb);
+                mc::nontrivial(); // every realloc of a live block takes one of: keep, shrink-split, grow into neighbour, extend top, move
+                outc(rt, nb.off == b.off ? "->inplace brk" : nb.off < b.off ? "->down brk" : "->up brk", brk_off());
             }
-            live.erase(live.begin() + p.i);
-            fill(nb);
-            insert_live(nb);
-            mc::nontrivial(); // every realloc of a live block takes one of: keep, shrink-split, grow into neighbour, extend top, move
-            outc(rt, nb.off == b.off ? "->inplace brk" : nb.off < b.off ? "->down brk" : "->up brk", brk_off());
         }
         // ---- after every operation
         vector<FreeEnt> fl;
@@ -439,6 +480,7 @@ struct Heap : mc::Model
 
     string key() override
     {
+        activate();
         string k;
         k.reserve(96);
         k += 'b';
@@ -465,6 +507,7 @@ struct Heap : mc::Model
     }
 };
 std::unordered_set<string> Heap::memo_ok;
+Heap *Heap::active = nullptr;
 
 MC_INIT
 {
@@ -482,6 +525,8 @@ MC_INIT
     add(2, 1000, 1000, false); // fix-point (depth 38)
     add(3, 9, 12, false);
     add(4, 8, 10, false);
-    add(5, 10, 10, true);
+#if !C10_ASSERT_BUILD
+    add(5, 9, 9, true); // thorough only, structural build only (2.4e3 CPU-seconds were not enough for depth 10)
+#endif
 }
 MC_MAIN
